@@ -346,24 +346,40 @@ def _bitop(kind, a, b):
     sym, other = (a, b) if isinstance(a, Sym) else (b, a)
     if isinstance(other, bool):
         other = int(other)
+    other_is_bit = isinstance(other, SBool) or _is_bit_term(other)
     if isinstance(other, SBool):
         other = SInt(as_int_term(other))
     if isinstance(sym, SBool):
         sym = SInt(as_int_term(sym))
-    if kind == "and" and _is_pow2_minus1(other):
-        return sym % (other + 1)
-    if kind == "or" and other == 1:
-        return sym + 1 - sym % 2
-    if kind == "or" and other == 0:
-        return sym
-    if kind == "xor" and other == 0:
-        return sym
-    if kind == "xor" and other == 1:
-        return sym + 1 - 2 * (sym % 2)
-    if kind == "and" and isinstance(other, int) and other > 0 and (other & (other - 1)) == 0:
-        # single bit mask 2**m:  x & 2**m  =  2**m * ((x // 2**m) % 2)
-        return other * ((sym // other) % 2)
-    raise OutOfReach(f"bitwise {kind} on symbolic ints outside the modelled forms")
+    if isinstance(other, int):
+        if kind == "and" and _is_pow2_minus1(other):
+            return sym % (other + 1)
+        if kind == "or" and other == 1:
+            return sym + 1 - sym % 2
+        if kind in ("or", "xor") and other == 0:
+            return sym
+        if kind == "xor" and other == 1:
+            return sym + 1 - 2 * (sym % 2)
+        if kind == "and" and other > 0 and (other & (other - 1)) == 0:
+            # single bit mask 2**m:  x & 2**m  =  2**m * ((x // 2**m) % 2)
+            return other * ((sym // other) % 2)
+    if kind == "xor" and other_is_bit:
+        # x ^ b for a 0/1-valued b:  b ? (x ^ 1) : x
+        bt, st = as_int_term(other), as_int_term(sym)
+        return wrap(z3.If(bt == 1, st + 1 - 2 * (st % 2), st))
+    # anything else: uninterpreted bit operation (sound abstraction: nothing is known about it except functionality)
+    f = {"and": BAND, "or": BOR, "xor": BXOR}[kind]
+    return wrap(f(as_int_term(a), as_int_term(b)))
+
+
+BAND = z3.Function("bit_and", z3.IntSort(), z3.IntSort(), z3.IntSort())
+BOR = z3.Function("bit_or", z3.IntSort(), z3.IntSort(), z3.IntSort())
+BXOR = z3.Function("bit_xor", z3.IntSort(), z3.IntSort(), z3.IntSort())
+
+
+def _is_bit_term(v):
+    return isinstance(v, SInt) and z3.is_app(v.e) and v.e.decl().kind() == z3.Z3_OP_ITE and all(
+        z3.is_int_value(c) and c.as_long() in (0, 1) for c in v.e.children()[1:])
 
 
 class SInt(_Num):
